@@ -3,13 +3,17 @@ from common import T_COMMON
 CFG = dict(
     theorems=["stl_length", "stl_roundtrip", "stl_roundtrip_trailing", "stl_count_wraps",
               "stl_reencode_prefix", "stl_reencode", "stl_decode_ok_iff", "stl_decode_short",
-              "stl_roundtrip_exact", "chunks_eq_triples", "stl_mesh_roundtrip", "stl_mesh_nopos", "stl_mesh_oob"],
+              "stl_roundtrip_exact", "chunks_eq_triples", "stl_mesh_roundtrip", "stl_mesh_roundtrip_partial", "stl_no_normals_witness",
+              "stl_geometric_normal_counterexample", "stl_mesh_nopos", "stl_mesh_oob"],
     streams=[dict(name="c07", n=dict(quick=250, thorough=6000))],
     trusted=T_COMMON + [
         "encoding/binary (struct layout of stl.Triangle: 12 float32 + uint16, no padding) — observed byte-exact against the model on every run",
         "driver instance of the precision bundle: Lean Float.toFloat32 / Float32.toFloat / Float arithmetic = Go float32()/float64()/float64 arithmetic on amd64 (observed bit-exact; NaN payloads canonicalised on both sides)",
     ],
     residue=[
+        "HEADLINE: Params.q32 / up / avgNormal / flatNormal are OPAQUE in every mesh-level theorem: 'rounded to float32', 'normalised mean of the corner normals' and 'geometric normal' are therefore correspondence content (the Go expressions executed at Float in the driver, compared bit for bit on every run), not theorem content; the theorems prove which corner / which normal function result goes where, for every mesh",
+        "clause 3 (read -> write reproduces the triangle records) is proved at the stl.Read / stl.Write level (stl_reencode); ReadMesh -> WriteMesh is NOT covered by a theorem (WriteMesh re-derives normals from corner normals and re-rounds positions)",
+        "KNOWN FINDING (normal clause at full strength, def C07_geometric_normal_full): a mesh that stores no normals is read back with no normal attribute; closed counterexample stl_geometric_normal_counterexample / stl_no_normals_witness, replayed on the real code by op c07.holds.geometric_normal_when_none_stored_witness (expected false; formats/stl/read_test.go:31 pins the behaviour); proved part: stl_mesh_roundtrip_partial (= stl_mesh_roundtrip)",
         "Params.avgNormal / flatNormal are opaque in the theorems: that `v1.Add(v2).Add(v3).DivByConstant(3).Normalized()` IS the normalised mean (and the cross product the geometric normal) in real arithmetic, and its IEEE rounding, are not proved; the float expressions are executed at Float in the driver and compared bit-for-bit with Go",
         "q32 (float64→float32 rounding) is opaque: 'rounded to float32' is the meaning of Go's float32(x), compared bit-for-bit, not proved to be round-to-nearest-even",
         "isZero32 (float32 == 0 ⇔ bit pattern ±0) is a bit-level definition in the model, tied by correspondence",
